@@ -23,6 +23,7 @@ inductive Op where
   | write (p : String) (d : Bytes)
   | sync (p : String)
   | rename (src dst : String)
+  | unlink (p : String)
 deriving Repr, DecidableEq
 
 def step (fs : Fs) : Op → Fs
@@ -39,6 +40,7 @@ def step (fs : Fs) : Op → Fs
     match fs src with
     | some f => (fs.set dst (some f)).set src none
     | none => fs
+  | .unlink p => fs.set p none
 
 def run (fs : Fs) (ops : List Op) : Fs := ops.foldl step fs
 
